@@ -41,7 +41,7 @@ static void sum_merge(void *clos, const uint8_t *key, size_t kl, const uint8_t *
 	(void) clos; (void) key; (void) kl; char b[32]; int n = snprintf(b, sizeof b, "#%llu", (unsigned long long) (sum_parse(v0, l0) + sum_parse(v1, l1)));
 	*out = malloc(n); memcpy(*out, b, n); *outl = n;
 }
-typedef struct { int kp; int n; int key[8]; size_t M; int pool; int mode; /* 0 iterate, 1 sorter_write */ int nomerge; size_t vpad; int mstyle; /* 0 fold tree, 1 shrinking sum */ } scase;
+typedef struct { int kp; int n; int key[16]; size_t M; int pool; int mode; /* 0 iterate, 1 sorter_write */ int nomerge; size_t vpad; int mstyle; /* 0 fold tree, 1 shrinking sum */ } scase;
 static void render(char *b, size_t n, void *ctx) {
 	scase *c = ctx; int o = snprintf(b, n, "Z:%d:%zu:%d:%d:%zu:", c->pool, c->M, c->mode, c->nomerge + 2 * c->mstyle, c->vpad);
 	for (int i = 0; i < c->n; i++) o += snprintf(b + o, n - o, "%d", c->key[i]);
